@@ -152,13 +152,14 @@ Definition fmt_NextProtocol := Msg 67 (FSeq (FVar 1) (FVar 1)).           (* :19
 Definition fmt_NewSessionTicket13 := Msg 4 (fseq [                        (* :2044-2077 *)
   FU 4; FU 4; FVar 1; FVar 2; ExtList CtxUniversal]).
 Definition fmt_NewSessionTicket10 := Msg 4 (FSeq (FU 4) (FVar 2)).        (* :2096-2117 *)
-(* SessionTicketPayload (:2204-2244): the leading 2-byte version selects the layout *)
+(* SessionTicketPayload (:2228-2275): the leading 2-byte version (0..3) selects the layout *)
 Definition stp_base := [FVar 2; FU 1; FU 1; FU 2; FVar 1; FU 8].
 Definition stp_certs := FList 3 CertificateEntry.
 Definition fmt_SessionTicketPayload := FTag 2 (fun ver =>
   if ver =? 0 then fseq stp_base
   else if ver =? 1 then fseq (stp_base ++ [stp_certs])
   else if ver =? 2 then fseq (stp_base ++ [stp_certs; FU 1; FU 1; FVar 2])
+  else if ver =? 3 then fseq (stp_base ++ [stp_certs; FU 1; FU 1; FVar 2; FVar 1])   (* + srp_username<1> *)
   else FFail).
 
 (* names used by the harness *)
